@@ -443,6 +443,26 @@ fn check_literal(l: &LitCase, w: &mut CaseWriter, sum: &mut Summary, evaluations
     if !same_lit(&goto_, &exph) {
         sum.violation(ImplViolation { key: "literal-oct".into(), input: format!("X = {}", oct), expected: format!("{:?}", exph), observed: format!("{:?}", goto_) });
     }
+    // a unary minus directly before a hex or octal literal
+    let neg_of = |l: &Lit| -> Lit {
+        match l {
+            // negation keeps the type of the literal unless the value does not fit it
+            // (-(-32768) is a LONG) or is -32768 (the INTEGER that has no positive literal)
+            Lit::Int(n) => if *n == -32768 { Lit::Long(32768) } else { Lit::Int(-*n) },
+            Lit::Long(n) => if *n == -2147483648 { Lit::Double(2147483648.0) } else if *n == 32768 { Lit::Int(-32768) } else { Lit::Long(-*n) },
+            other => other.clone(),
+        }
+    };
+    let gotnh = parse_lit(&format!("-{}", hex));
+    let gotno = parse_lit(&format!("-{}", oct));
+    let expnh = neg_of(&exph);
+    *evaluations += 2;
+    if !same_lit(&gotnh, &expnh) {
+        sum.violation(ImplViolation { key: "literal-negative-hex".into(), input: format!("X = -{}", hex), expected: format!("{:?}", expnh), observed: format!("{:?}", gotnh) });
+    }
+    if !same_lit(&gotno, &expnh) {
+        sum.violation(ImplViolation { key: "literal-negative-oct".into(), input: format!("X = -{}", oct), expected: format!("{:?}", expnh), observed: format!("{:?}", gotno) });
+    }
     sum.count("literal_values");
     sum.nontrivial(format!("lit{}", v));
     if to_coq && v < (1u64 << 53) {
@@ -450,14 +470,16 @@ fn check_literal(l: &LitCase, w: &mut CaseWriter, sum: &mut Summary, evaluations
         let octdigits: Vec<i128> = format!("{}{:o}", zeros, v).chars().map(|c| c.to_digit(8).unwrap() as i128).collect();
         w.push(Case {
             agree: format!(
-                "lit_eqb (lit_dec {v}) {d} && lit_eqb (lit_neg (lit_dec {v})) {n} && lit_eqb (lit_hex {hd}) {h} && lit_eqb (lit_oct {od}) {o}",
+                "lit_eqb (lit_dec {v}) {d} && lit_eqb (lit_neg (lit_dec {v})) {n} && lit_eqb (lit_hex {hd}) {h} && lit_eqb (lit_oct {od}) {o} && lit_eqb (lit_neg (lit_hex {hd})) {nh} && lit_eqb (lit_neg (lit_oct {od})) {no}",
                 v = z(v as i128),
                 d = coq_lit(&got),
                 n = coq_lit(&gotn),
                 hd = zlist(hexdigits.clone()),
                 h = coq_lit(&goth),
                 od = zlist(octdigits.clone()),
-                o = coq_lit(&goto_)
+                o = coq_lit(&goto_),
+                nh = coq_lit(&gotnh),
+                no = coq_lit(&gotno)
             ),
             desc: format!("{} -> {:?}; {} -> {:?}; {} -> {:?}; {} -> {:?}", dec, got, neg, gotn, hex, goth, oct, goto_),
             model_expr: format!("(lit_dec {v}, lit_neg (lit_dec {v}), lit_hex {hd}, lit_oct {od})", v = z(v as i128), hd = zlist(hexdigits), od = zlist(octdigits)),
@@ -582,7 +604,7 @@ pub fn run(args: &Args) {
         if l.v < (1u64 << 32) {
             // literals expected to be rejected (Overflow) are parsed one by one: a rejected
             // expression makes the whole batch fail and forces a bisection
-            texts.extend([l.hex.clone(), l.oct.clone()]);
+            texts.extend([l.hex.clone(), l.oct.clone(), format!("-{}", l.hex), format!("-{}", l.oct)]);
         }
     }
     prefetch(&texts);
@@ -601,6 +623,6 @@ pub fn run(args: &Args) {
     sum.write(
         &args.out,
         evaluations,
-        "expressions: every sequence of up to 3 (quick) / 4 (thorough) of the 13 binary operators over distinct variables; for chains of up to 2 operators every assignment of {none, -, NOT} prefixes to the operands; sampled prefix and parenthesis insertions on the longer sequences; random chains of 3..7 operators with prefixes and nested parentheses. Each parsed through parse_main_str and compared with the Coq model of the repair algorithm and with an independent precedence-climbing reference. Literals: all 65536 16-bit values in decimal, negated decimal, hex and octal with random leading zeros against the reference (Coq model on boundary values and every 97th), values around 2^k for k up to 53, random 20..34-bit values. Non-trivial = chain with at least 2 operators / every literal value; distinct by text.",
+        "expressions: every sequence of up to 3 (quick) / 4 (thorough) of the 13 binary operators over distinct variables; for chains of up to 2 operators every assignment of {none, -, NOT} prefixes to the operands; sampled prefix and parenthesis insertions on the longer sequences; random chains of 3..7 operators with prefixes and nested parentheses. Each parsed through parse_main_str and compared with the Coq model of the repair algorithm and with an independent precedence-climbing reference. Literals: all 65536 16-bit values in decimal, negated decimal, hex, octal, negated hex and negated octal with random leading zeros against the reference (Coq model on boundary values and every 97th), values around 2^k for k up to 53, random 20..34-bit values. Non-trivial = chain with at least 2 operators / every literal value; distinct by text.",
     );
 }
